@@ -38,6 +38,7 @@ pub fn dispatch(args: &Args) -> Report {
         "C02" => c02::run(args),
         "C02T" => c02t::run(args),
         "C03" => c03::run(args),
+        "C04" if replay_of_other_part(args) => Report::new("C04", &args.tier, "psim", "model_checking"),
         "C04" => c04::run(args),
         "C05" => c05::run(args),
         "C06" => c06::run(args),
